@@ -179,6 +179,45 @@ func extractProxy(repo string, o *out) {
 	}
 	o.emit("writer_deregisters_its_name", "", "bool", own, "true", "", "")
 
+	// writer_closes_before_deregistering: in ToxicLink.write the destination is closed by a plain statement that comes after the copy
+	// and before RemoveLink / RemoveConnection (which take locks other requests may hold for seconds): the receiver sees the end of
+	// the stream when the chain ends, not when those locks are free
+	first := ""
+	if wr != nil && wr.Body != nil {
+		cp, cl, rl, rc := -1, -1, -1, -1
+		deferred := false
+		for i, st := range wr.Body.List {
+			txt := show(fs, st)
+			switch x := st.(type) {
+			case *ast.DeferStmt:
+				if strings.Contains(txt, ".Close()") || strings.Contains(txt, "RemoveLink") || strings.Contains(txt, "RemoveConnection") {
+					deferred = true
+				}
+			case *ast.ExprStmt:
+				if strings.HasSuffix(txt, ".Close()") && cl < 0 {
+					if c, ok := x.X.(*ast.CallExpr); ok {
+						if se, ok := c.Fun.(*ast.SelectorExpr); ok && paramIdx(wr, show(fs, se.X)) >= 0 {
+							cl = i
+						}
+					}
+				}
+				if strings.Contains(txt, ".RemoveLink(") && rl < 0 {
+					rl = i
+				}
+				if strings.Contains(txt, ".RemoveConnection(") && rc < 0 {
+					rc = i
+				}
+			}
+			if strings.Contains(txt, "io.Copy(") && cp < 0 {
+				cp = i
+			}
+		}
+		if cp >= 0 && cl >= 0 && rl >= 0 && rc >= 0 {
+			first = boolS(!deferred && cp < cl && cl < rl && cl < rc)
+		}
+	}
+	o.emit("writer_closes_before_deregistering", "", "bool", first, "true", "", "")
+
 	stopOrder := ""
 	if fd := p.method("", "stop"); fd != nil && fd.Body != nil {
 		kill := pos(fd.Body, func(s string) bool { return strings.HasPrefix(s, "proxy.tomb.Kill") })
